@@ -165,6 +165,31 @@ func genLLDP(cl *caseList, rng *lib.Rand, scale int) {
 	for k := 0; k < 100*scale; k++ {
 		add("random", rng.Bytes(rng.Intn(40)), rng.Intn(128))
 	}
+	// TLV chains at the bounds: a full-size frame of zero-length TLVs (700 iterations), of
+	// 9-bit-length TLVs (511), a value ending exactly at / one beyond the end, a header in the
+	// last 1 / 2 / 3 bytes
+	for _, size := range []int{6, 7, 8, 9, 512, 513, 514, 515, 1500} {
+		mk := func(fill func(p []byte)) {
+			p := make([]byte, size)
+			fill(p)
+			add("chain", p, 127)
+			add("chain", p, 3)
+		}
+		mk(func(p []byte) { // type 5, length 0 repeated
+			for i := 0; i+1 < len(p); i += 2 {
+				p[i], p[i+1] = 5<<1, 0
+			}
+		})
+		mk(func(p []byte) { // 9-bit length 511 repeated
+			for i := 0; i+1 < len(p); i += 513 {
+				p[i], p[i+1] = 5<<1|1, 255
+			}
+		})
+		mk(func(p []byte) { p[0], p[1] = 5<<1|byte((size-2)>>8&1), byte(size-2) })                     // value fills the frame exactly
+		mk(func(p []byte) { p[0], p[1] = 5<<1|byte((size-1)>>8&1), byte(size-1) })                     // one byte beyond
+		mk(func(p []byte) { p[0], p[1] = 5<<1|byte((size-3)>>8&1), byte(size-3); p[size-1] = 7 << 1 }) // header byte alone at the end
+		mk(func(p []byte) { p[0], p[1] = 5<<1|byte((size-4)>>8&1), byte(size-4); p[size-2] = 7 << 1; p[size-1] = 9 })
+	}
 }
 
 // ---------------------------------------------------------------- 802.3
@@ -197,11 +222,11 @@ func gen8023(cl *caseList, rng *lib.Rand, scale int) {
 // ---------------------------------------------------------------- SSDP
 
 type ssdpView struct {
-	kind                       int
-	httpOK, methodNotify       bool
-	nts                        int
-	cc                         []byte
-	manOK, statusOK            bool
+	kind                 int
+	httpOK, methodNotify bool
+	nts                  int
+	cc                   []byte
+	manOK, statusOK      bool
 }
 
 func ssdpViewOf(raw []byte) ssdpView {
@@ -635,13 +660,146 @@ func genDHCP4(cl *caseList, rng *lib.Rand, scale int) {
 	}
 }
 
-// ProcessDNS: no model in this cluster; the Go-side oracle reports panic / hang
+// DNS messages whose names stress the decoder's recursion and length guards: compression
+// pointer cycles in every name position, pointer chains and label runs at and beyond the
+// bounds (maxRecursionLevel = 255, name length 255, narrow-integer wrap points 127/128/255/256).
+func dnsNameStress(rng *lib.Rand) (msgs [][]byte) {
+	hdr := func(qd, an int) []byte {
+		return []byte{0x12, 0x34, 0x84, 0, byte(qd >> 8), byte(qd), byte(an >> 8), byte(an), 0, 0, 0, 0}
+	}
+	ptr := func(off int) []byte { return []byte{0xc0 | byte(off>>8), byte(off)} }
+	tail := []byte{0, 1, 0, 1} // type A class IN
+	rrFixed := func(typ, rdlen int) []byte {
+		return []byte{byte(typ >> 8), byte(typ), 0, 1, 0, 0, 0, 60, byte(rdlen >> 8), byte(rdlen)}
+	}
+	q := append(dnsName("www", "example", "com"), tail...) // question at 12, 21 bytes: answers start at 33
+	aOff := 12 + len(q)
+	add := func(b ...[]byte) {
+		var m []byte
+		for _, x := range b {
+			m = append(m, x...)
+		}
+		msgs = append(msgs, m)
+	}
+	// --- question name
+	add(hdr(1, 0), ptr(12), tail)                           // points at itself
+	add(hdr(1, 0), []byte{3, 'a', 'b', 'c'}, ptr(12), tail) // label, then pointer back to the label
+	add(hdr(1, 0), ptr(14), ptr(12), []byte{0, 1})          // 12 -> 14 -> 12 (the type field is the second pointer)
+	add(hdr(1, 0), ptr(16), tail, ptr(18), ptr(16))         // forward, then a two-pointer cycle behind the question
+	add(hdr(1, 0), []byte{1, 'a'}, ptr(14), tail)           // pointer at itself behind a label
+	add(hdr(1, 0), ptr(13), tail)                           // into the middle of itself
+	add(hdr(1, 0), ptr(0x3fff), tail)                       // beyond the message
+	add(hdr(1, 0), ptr(18), tail)                           // exactly len(msg)
+	add(hdr(1, 0), ptr(17), tail)                           // last byte
+	// --- owner name of an answer
+	for _, typ := range []int{1, 5, 12, 2, 28, 16} {
+		rd := []byte{1, 2, 3, 4}
+		if typ == 28 {
+			rd = make([]byte, 16)
+		}
+		add(hdr(1, 1), q, ptr(aOff), rrFixed(typ, len(rd)), rd)                      // owner points at itself
+		add(hdr(1, 1), q, []byte{2, 'x', 'y'}, ptr(aOff), rrFixed(typ, len(rd)), rd) // label + pointer back
+		add(hdr(1, 1), q, ptr(aOff+2), ptr(aOff), rrFixed(typ, len(rd)), rd)         // owner <-> next two bytes
+	}
+	// --- name inside RDATA (CNAME 5, PTR 12, NS 2): at itself, at its own owner (which points at
+	//     the RDATA), label + pointer, into the fixed header
+	for _, typ := range []int{5, 12, 2} {
+		rdOff := aOff + 2 + 10                                                                               // owner is a 2-byte pointer
+		add(hdr(1, 1), q, ptr(12), rrFixed(typ, 2), ptr(rdOff))                                              // rdata -> rdata
+		add(hdr(1, 1), q, ptr(rdOff), rrFixed(typ, 2), ptr(aOff))                                            // owner -> rdata -> owner
+		add(hdr(1, 1), q, ptr(12), rrFixed(typ, 6), []byte{3, 'f', 'o', 'o'}, ptr(rdOff))                    // label + pointer to itself
+		add(hdr(1, 1), q, ptr(12), rrFixed(typ, 2), ptr(aOff+2))                                             // into the record header
+		add(hdr(1, 2), q, ptr(12), rrFixed(typ, 2), ptr(rdOff+2+2+10), ptr(12), rrFixed(typ, 2), ptr(rdOff)) // two records' rdata at each other
+		// PTR owner in in-addr.arpa form with a cyclic target
+		arpa := dnsName("4", "3", "2", "1", "in-addr", "arpa")
+		r2 := aOff + len(arpa) + 10
+		add(hdr(1, 1), q, arpa, rrFixed(typ, 2), ptr(r2))
+	}
+	// --- pointer chains: n hops ending at a real name (at / beyond maxRecursionLevel and at the
+	//     wrap points of 8-bit counters), and the same chains closed into a cycle
+	for _, n := range []int{1, 2, 126, 127, 128, 129, 253, 254, 255, 256, 257, 258, 300, 511, 512, 600} {
+		base := 12 + 2 + 4 // question = pointer to the chain, then type/class
+		chain := []byte{}
+		for k := 0; k < n; k++ {
+			chain = append(chain, ptr(base+2*(k+1))...)
+		}
+		end := dnsName("end")
+		add(hdr(1, 0), ptr(base), tail, chain, end) // open chain
+		cyc := append([]byte{}, chain...)
+		copy(cyc[len(cyc)-2:], ptr(base)) // last hop back to the first
+		add(hdr(1, 0), ptr(base), tail, cyc, end)
+		// the same chain as owner of an answer record and as CNAME target
+		add(hdr(1, 1), q, ptr(aOff+2+10+4), rrFixed(1, 4), []byte{1, 2, 3, 4}, shift(chain, aOff+2+10+4-base), end)
+		add(hdr(1, 1), q, ptr(12), rrFixed(5, 2), ptr(aOff+2+10+2), shift(cyc, aOff+2+10+2-base), end)
+	}
+	// --- label runs: total name length at and beyond 255, single labels 63/64, run of 1-byte labels
+	for _, total := range []int{62, 63, 64, 127, 128, 250, 253, 254, 255, 256, 257, 300, 512} {
+		var nm []byte
+		for len(nm) < total {
+			l := 63
+			if total-len(nm)-1 < l {
+				l = total - len(nm) - 1
+			}
+			if l <= 0 {
+				break
+			}
+			nm = append(append(nm, byte(l)), bytes.Repeat([]byte{'a'}, l)...)
+		}
+		add(hdr(1, 0), nm, []byte{0}, tail)
+		add(hdr(1, 0), nm, ptr(12), tail) // long label run closed by a pointer to its start
+		var ones []byte
+		for k := 0; k < total/2; k++ {
+			ones = append(ones, 1, 'b')
+		}
+		add(hdr(1, 1), q, ones, []byte{0}, rrFixed(1, 4), []byte{1, 2, 3, 4})
+	}
+	add(hdr(1, 0), []byte{64}, bytes.Repeat([]byte{'a'}, 64), []byte{0}, tail) // 0x40 label type
+	add(hdr(1, 0), []byte{0x80, 1}, tail)                                      // 0x80 label type
+	// --- counts beyond the records present
+	add(hdr(1, 65535), q, ptr(12), rrFixed(1, 4), []byte{1, 2, 3, 4})
+	add(hdr(2, 1), q, q)
+	_ = rng
+	return msgs
+}
+
+// shift re-bases a pointer chain built for offset 0 by delta bytes
+func shift(chain []byte, delta int) []byte {
+	out := append([]byte{}, chain...)
+	for i := 0; i+1 < len(out); i += 2 {
+		off := (int(out[i]&0x3f)<<8 | int(out[i+1])) + delta
+		out[i], out[i+1] = 0xc0|byte(off>>8), byte(off)
+	}
+	return out
+}
+
+// ProcessDNS through the full path and the exported decoders directly: no model in this
+// cluster (DNS cluster); the Go-side oracle reports panic / fatal runtime error / hang
 func genDNSProc(cl *caseList, rng *lib.Rand, scale int) {
 	add := func(class string, msg []byte) {
 		f := udpFrame(53, 40000, netip.MustParseAddr("192.168.0.129"), hostMAC, msg)
 		if _, _, ok := parseFor(f, packet.PayloadDNS); ok {
 			cl.add("dnsproc."+class, "dnsproc", hx(f))
 		}
+		// exported decoders, at the regular offsets and at a few arbitrary ones
+		if len(msg) >= 12 {
+			cl.add("dnsq."+class, "dnsq", hx(msg), "12")
+			qend := 12
+			for qend < len(msg) && msg[qend] != 0 && msg[qend]&0xc0 == 0 {
+				qend += 1 + int(msg[qend])
+			}
+			if qend < len(msg) && msg[qend]&0xc0 == 0xc0 {
+				qend++
+			}
+			cl.add("dnsans."+class, "dnsans", hx(msg), fmt.Sprint(qend+1+4))
+			if rng.Chance(20) {
+				o := rng.Intn(len(msg) + 2)
+				cl.add("dnsq."+class+".off", "dnsq", hx(msg), fmt.Sprint(o))
+				cl.add("dnsans."+class+".off", "dnsans", hx(msg), fmt.Sprint(o))
+			}
+		}
+	}
+	for _, m := range dnsNameStress(rng) {
+		add("namestress", m)
 	}
 	for k := 0; k < 60*scale; k++ {
 		m := randResponse(rng, []int{1, 28, 5, 12, 16, 2, 33, 99}, 2)
@@ -656,6 +814,17 @@ func genDNSProc(cl *caseList, rng *lib.Rand, scale int) {
 		c := append([]byte{}, b...)
 		c[rng.Intn(len(c))] = rng.Byte()
 		add("mutate", c)
+		// a random pointer planted at a random position behind the header
+		d := append([]byte{}, b...)
+		if len(d) > 16 {
+			i := 12 + rng.Intn(len(d)-14)
+			t := rng.Pick(i, i-1, 12, rng.Intn(len(d)), len(d), len(d)-1)
+			if t < 0 {
+				t = 0
+			}
+			d[i], d[i+1] = 0xc0|byte(t>>8), byte(t)
+			add("pointer", d)
+		}
 	}
 }
 
@@ -679,6 +848,9 @@ func genLLMNR(cl *caseList, rng *lib.Rand, scale int) {
 		c := append([]byte{}, b...)
 		c[rng.Intn(len(c))] = rng.Byte()
 		add("mutate", c)
+	}
+	for _, m := range dnsNameStress(rng) {
+		add("namestress", m)
 	}
 }
 
